@@ -396,6 +396,28 @@ func ruleChildValidators(r *Run, rule, typ string) {
 		}
 		return true
 	})
+	// the same through a helper (appendValidators(vals, p.Blocks)): on the paths, with the helper spliced in, the
+	// loop over the field stores its element as a validator
+	if fl, paths, ok := r.flowPaths(rule, fn); ok {
+		for i := range paths {
+			p := &paths[i]
+			for j, e := range p.Ev {
+				if e.Kind != EvAssign && e.Kind != EvCall {
+					continue
+				}
+				for _, rs := range loopsOnPath(p, j) {
+					for _, f := range need {
+						if got[f] {
+							continue
+						}
+						if _, m := FieldPath(fl.Info, rs.X, owner, f); m && storesElemAsValidator(fl.Info, rs) {
+							got[f] = true
+						}
+					}
+				}
+			}
+		}
+	}
 	var missing []string
 	for _, f := range need {
 		if !got[f] {
